@@ -162,6 +162,18 @@ theorem connect_stream_error_roundtrip (c : HConn) (cfg : CCfg) (p : HProg) (e :
   simp only [recvItems, hproto, if_true, List.append_nil, fixCode, h0, if_false]
   exact ⟨trivial, _, rfl⟩
 
+/-- **unary_error_ignores_read_limit**: what a unary Connect client makes of a non-200 response -
+    the peer's code, message, details and metadata, or the fallback from the HTTP status - does
+    not depend on the client's read limit: the limit is about messages, the error body is not
+    one (a client with a 32-byte limit still learns that the handler said `canceled`). -/
+theorem unary_error_ignores_read_limit (cfg : CCfg) (m : Nat) (st : Bytes) (r : Resp) (hs : r.status ≠ 200) :
+    clientConnectUnary { cfg with max := m } st r = clientConnectUnary cfg st r := by
+  unfold clientConnectUnary
+  simp only [encodingKnown, encodingPool, hs, ne_eq, not_false_eq_true, if_true]
+  split
+  · rfl
+  · split <;> rfl
+
 /-! ### a whole gRPC call: handler side composed with client side -/
 
 theorem vals_copy (h : Header) (hw : h.wf) (k : Bytes) : (mergeHeaders [] h).vals k = h.vals k := by
